@@ -973,6 +973,22 @@ def add_padding_fields(op, arch, nng):
                     output_shape.height // input_shape.height,
                     output_shape.width // input_shape.width,
                 )
+            elif op.type == Op.Conv2DBackpropInputSwitchedBias:
+                # Transpose convolution with stride 1: a convolution with the flipped kernel, every output that a kernel
+                # position touches is produced. That takes kernel size - 1 rows / columns of padding in total on each
+                # axis for SAME (the part that the transpose convolution crops at the top / left goes to the bottom /
+                # right here), and kernel size - 1 on every side for VALID
+                kernel_height, kernel_width = kernel_size[0], kernel_size[1]
+                if op.attrs["padding"] == Padding.SAME:
+                    bottom_pad, right_pad = (kernel_height - 1) // 2, (kernel_width - 1) // 2
+                    top_pad, left_pad = kernel_height - 1 - bottom_pad, kernel_width - 1 - right_pad
+                elif op.attrs["padding"] == Padding.VALID:
+                    top_pad = bottom_pad = kernel_height - 1
+                    left_pad = right_pad = kernel_width - 1
+                else:
+                    raise UnsupportedFeatureError(f"Unsupported padding = {op.attrs['padding']} for transpose convolution")
+                padding = (top_pad, left_pad, bottom_pad, right_pad)
+                skirt = padding
             else:
                 padding, skirt = calc_padding_and_skirt(
                     op.attrs["padding"],
